@@ -75,9 +75,9 @@ def spell_piece(cp, mode, quote, next_cp):
             return "\\u%04X" % cp
         if m == "U":
             return "\\U%08x" % cp
-        if m == "oct3" and cp < 0o1000:
+        if m == "oct3" and cp < 0o400:       # \400..\777 are deprecated ("invalid octal escape") in Python 3.12
             return "\\%03o" % cp
-        if m == "oct" and cp < 0o1000 and not (next_cp is not None and 0x30 <= next_cp <= 0x37):
+        if m == "oct" and cp < 0o400 and not (next_cp is not None and 0x30 <= next_cp <= 0x37):
             return "\\%o" % cp
         if m == "N":
             try:
@@ -219,44 +219,77 @@ SPECIAL_CPS = [0x27, 0x22, 0x5C, 0x0A, 0x0D, 0x09, 0x00, 0x07, 0x08, 0x0B, 0x0C,
                0x61, 0x20, 0x7B, 0x7D, 0x25, 0x23, 0x30, 0x37, 0x38, 0x4E, 0x78, 0x75]
 
 
+def _decode_pieces(nums):
+    """One drawn integer per character: code point class / code point / spelling mode / literal break / quote.
+    (A flat list of integers costs a fraction of nested list-of-tuple strategies and shrinks towards 'a' printed raw.)"""
+    parts, seps = [], []
+    modes = ["raw"] + MODES + ["raw"]
+    for n in nums:
+        n = (n * 2654435761) % 2**32   # spread Hypothesis' small-number bias over all fields; 0 stays 0
+        n, a = divmod(n, 8)
+        n, b = divmod(n, 0x110000)
+        n, m = divmod(n, len(modes))
+        n, brk = divmod(n, 6)
+        q = "'\""[n % 2]
+        if a in (1, 2):
+            cp = SPECIAL_CPS[b % len(SPECIAL_CPS)]
+        elif a in (0, 3):
+            cp = 0x61 + b % 26 if a == 0 else 0x20 + b % 95
+        elif a == 4:
+            cp = b % 0x300
+        else:
+            cp = b
+        if not parts or (brk == 5 and len(parts) < 4):
+            if parts:
+                seps.append(["", " ", "  ", "\n", "\t"][b % 5])
+            parts.append({"q": q, "pieces": []})
+        parts[-1]["pieces"].append([cp, modes[m]])
+    if not parts:
+        parts.append({"q": "'", "pieces": []})
+    return {"kind": "str", "parts": parts, "seps": seps}
+
+
 def str_cases():
     import hypothesis.strategies as st
 
-    cp = st.one_of(st.sampled_from(SPECIAL_CPS), st.integers(0x20, 0x7E), st.integers(0, 0x10FFFF), st.integers(0, 0x2FF))
-    piece = st.tuples(cp, st.sampled_from(MODES + ["raw", "raw"])).map(list)
-    part = st.builds(lambda q, ps: {"q": q, "pieces": ps}, st.sampled_from(["'", '"']), st.lists(piece, max_size=6))
-    return st.builds(lambda parts, seps: {"kind": "str", "parts": parts, "seps": seps[: len(parts) - 1]},
-                     st.lists(part, min_size=1, max_size=4), st.lists(st.sampled_from(["", " ", "  ", "\n", "\t"]), min_size=3, max_size=3))
+    return st.lists(st.integers(0, 2**31 - 1), max_size=10).map(_decode_pieces)
 
 
 def _underscored(digits, flags, lead=False):
-    """Insert '_' between digits (and after a base prefix when lead) where the flag list says so."""
+    """Insert '_' between digits (and after a base prefix when lead) where the flag bits say so."""
     out = []
     for i, ch in enumerate(digits):
-        if (i > 0 or lead) and i < len(flags) and flags[i]:
+        if (i > 0 or lead) and (flags >> (i % 24)) & 1:
             out.append("_")
         out.append(ch)
     return "".join(out)
+
+
+def _build_int(t):
+    n, k = t
+    k = (k * 0x9E3779B97F4A7C15) % 2**64
+    k, base = divmod(k, 5)
+    base = [10, 10, 16, 2, 8][base]
+    k, up_prefix = divmod(k, 2)
+    k, up_digits = divmod(k, 2)
+    k, zeros = divmod(k, 3)
+    k, dense = divmod(k, 4)
+    flags = k & (k >> 1) if dense else 0   # sparse underscores, none at all in 1 of 4
+    if base == 10:
+        digits = str(n) if n else "0" * (1 + zeros)
+        return {"kind": "int", "spelling": _underscored(digits, flags)}
+    prefix = {2: "0b", 8: "0o", 16: "0x"}[base]
+    digits = "0" * zeros + {2: "{:b}", 8: "{:o}", 16: "{:x}"}[base].format(n)
+    if up_digits:
+        digits = digits.upper()
+    return {"kind": "int", "spelling": (prefix.upper() if up_prefix else prefix) + _underscored(digits, flags, lead=True)}
 
 
 def int_cases():
     import hypothesis.strategies as st
 
     value = st.one_of(st.integers(0, 300), st.integers(0, 10**40 - 1), st.sampled_from([0, 1, 7, 8, 9, 10, 255, 256, 2**31, 2**63, 2**64, 10**39]))
-
-    def build(n, base, up_prefix, up_digits, flags, zeros):
-        if base == 10:
-            digits = str(n) if n else "0" * (1 + zeros)
-            return {"kind": "int", "spelling": _underscored(digits, flags)}
-        prefix = {2: "0b", 8: "0o", 16: "0x"}[base]
-        digits = {2: "{:b}", 8: "{:o}", 16: "{:x}"}[base].format(n)
-        digits = "0" * zeros + digits
-        if up_digits:
-            digits = digits.upper()
-        return {"kind": "int", "spelling": (prefix.upper() if up_prefix else prefix) + _underscored(digits, flags, lead=True)}
-
-    return st.builds(build, value, st.sampled_from([10, 10, 16, 2, 8]), st.booleans(), st.booleans(),
-                     st.lists(st.sampled_from([False, False, False, True]), max_size=12), st.integers(0, 2))
+    return st.tuples(value, st.integers(0, 2**40)).map(_build_int)
 
 
 BOUNDARY_FLOATS = ["5e-324", "4.9e-324", "2.2250738585072014e-308", "1.7976931348623157e308", "1.7976931348623158e308",
@@ -265,28 +298,38 @@ BOUNDARY_FLOATS = ["5e-324", "4.9e-324", "2.2250738585072014e-308", "1.797693134
                    "1_0.0_1", "0e0", "1_000e1_0"]
 
 
+def _build_float(t):
+    a, b, c, k = t
+    k = (k * 0x9E3779B97F4A7C15) % 2**64
+    k, kind = divmod(k, 8)
+    k, neg = divmod(k, 4)
+    if kind == 0:
+        return {"kind": "float", "spelling": BOUNDARY_FLOATS[a % len(BOUNDARY_FLOATS)], "neg": neg == 3}
+    k, has_frac = divmod(k, 2)
+    k, has_exp = divmod(k, 2)
+    k, sign = divmod(k, 4)
+    k, upper = divmod(k, 2)
+    k, pad = divmod(k, 3)
+    k, dense = divmod(k, 3)
+    flags = k & (k >> 1) if dense else 0
+    if not has_frac and not has_exp:
+        has_frac = 1
+    s = _underscored("0" * (pad == 2) + str(a), flags)
+    if has_frac:
+        s += "." + _underscored("0" * pad + str(b), flags >> 5)
+    if has_exp:
+        s += ("E" if upper else "e") + ["", "+", "-", "-"][sign] + _underscored("0" * (pad == 1) + str(c), flags >> 11)
+    return {"kind": "float", "spelling": s, "neg": neg == 3}
+
+
 def float_cases():
     import hypothesis.strategies as st
 
-    digits = st.text(alphabet="0123456789", min_size=1, max_size=8)
-    flags = st.lists(st.sampled_from([False, False, True]), max_size=8)
-
-    def build(ip, ipf, frac, fracf, has_frac, exp, expf, has_exp, sign, upper, neg):
-        if not has_frac and not has_exp:
-            has_frac = True
-        s = _underscored(ip, ipf)
-        if has_frac:
-            s += "." + _underscored(frac, fracf)
-        if has_exp:
-            s += ("E" if upper else "e") + sign + _underscored(exp[:3], expf)
-        return {"kind": "float", "spelling": s, "neg": neg}
-
-    gen = st.builds(build, digits, flags, digits, flags, st.booleans(), digits, flags, st.booleans(),
-                    st.sampled_from(["", "+", "-", "-"]), st.booleans(), st.sampled_from([False, False, False, True]))
-    fixed = st.builds(lambda s, neg: {"kind": "float", "spelling": s, "neg": neg}, st.sampled_from(BOUNDARY_FLOATS), st.booleans())
+    digits = st.one_of(st.integers(0, 99), st.integers(0, 10**9), st.integers(0, 10**18))
+    gen = st.tuples(digits, digits, st.one_of(st.integers(0, 30), st.integers(0, 400)), st.integers(0, 2**40)).map(_build_float)
     reprs = st.builds(lambda f, neg: {"kind": "float", "spelling": repr(f), "neg": neg},
                       st.floats(min_value=0.0, allow_nan=False, allow_infinity=False), st.booleans())
-    return st.one_of(gen, gen, reprs, fixed)
+    return st.one_of(gen, gen, gen, reprs)
 
 
 def enum_cases(maxlen):
@@ -301,7 +344,7 @@ def shards(tier):
 
 def run_shard(spec, ctx):
     rec = core.Rec()
-    core.hyp_shard(str_cases(), check_case, ctx, ctx.pick(6000, 90000), rec=rec, tag="str")
+    core.hyp_shard(str_cases(), check_case, ctx, ctx.pick(5000, 80000), rec=rec, tag="str")
     core.hyp_shard(int_cases(), check_case, ctx, ctx.pick(2500, 40000), rec=rec, tag="int")
     core.hyp_shard(float_cases(), check_case, ctx, ctx.pick(2500, 40000), rec=rec, tag="float")
     core.enum_shard(core.sliced(enum_cases(ctx.pick(4, 5)), ctx.index, ctx.nshards), check_case, ctx, rec=rec)
